@@ -317,7 +317,7 @@ theorem total_run_zero (c : Cfg) (cn : Nat) (ops : List Op) :
       have h2 : ¬ (s.sid = cn ∧ msg.id = 0 ∧ msg.id ≠ 0) := fun hh => hh.2.2 hh.2.1
       rw [if_neg h2]; rfl
 
-/-- nothing in flight is due later than 40 s from now -/
+/-- nothing in flight is due later than `lateMs` from now -/
 def DueBound (st : St) : Prop := ∀ p ∈ st.pend, p.due ≤ st.now + lateMs
 
 theorem dueBound_step (c : Cfg) (st : St) (op : Op) (h : DueBound st) : DueBound (step fixed c st op) := by
